@@ -43,6 +43,7 @@ type c09Run struct {
 	views    []coRecView
 	line     string // request for the model
 	ev       *aucoalesce.Event
+	perr     error // the primary record's Data() error (newEvent attaches it as is)
 	obs      string
 	buildErr error
 }
@@ -74,6 +75,9 @@ func runC09Impl(c C09Case) c09Run {
 	}
 	r.line = strings.Join(words, " ")
 	r.ev, r.obs = coal.RunCoalesce(msgs)
+	if r.ev != nil {
+		r.perr = coal.PrimaryErr(msgs)
+	}
 	return r
 }
 
@@ -458,7 +462,7 @@ func c09Tags(c C09Case, r c09Run) (bool, []string) {
 	if r.ev != nil {
 		seen := map[string]bool{}
 		for _, w := range r.ev.Warnings {
-			cl := coal.ClassifyWarning(w, nil)
+			cl := coal.ClassifyWarning(w, r.perr)
 			if strings.HasPrefix(cl, "unknown:") {
 				cl = "unknown:" + coFirstWords(w.Error(), 4)
 			} else if i := strings.IndexByte(cl, ':'); i > 0 && !strings.HasPrefix(cl, "parse:") {
